@@ -140,6 +140,8 @@ CONVERTERS = {          # name -> (factory, consumes the remaining segments): th
     'dt': (conv_dt, False), 'path': (conv_path, True), 'veto': (conv_veto, False), 'rest': (conv_rest, True),
     # two harness converters whose classes share one __name__ but behave differently
     'tagA': (make_conv_tag('A:', 'a'), False), 'tagB': (make_conv_tag('B:', 'b'), False),
+    # harness converter that may run user code (e.g. register a route) while a lookup is in flight
+    'plug': (lambda: (lambda s: None if s.startswith('n') else 'P:' + s), False),
 }
 # the check's alternative profile: 'int' and 'veto' replaced on that router, 'hex' added
 CONVERTERS_ALT = dict(CONVERTERS, int=(conv_hexint, False), veto=(conv_veto_alt, False), hex=(conv_hexint, False))
